@@ -35,6 +35,18 @@ def parse_float(s):
     return float(txt)  # correctly rounded, overflow -> inf, "-0" -> -0.0
 
 
+def _big_int(z, r):
+    """int(z, r) for digit strings of any length (the host refuses more than 4300 digits at once;
+    its limit is left alone because the engine under test runs in the same process)."""
+    if len(z) <= 4000:
+        return int(z, r)
+    n = 0
+    for i in range(0, len(z), 4000):
+        part = z[i : i + 4000]
+        n = n * r ** len(part) + int(part, r)
+    return n
+
+
 def parse_int(s, radix=P.UNDEF):
     """parseInt(string, radix): ("exact", [values]) or ("approx", value)."""
     t = s.lstrip(P.WS)
@@ -64,7 +76,7 @@ def parse_int(s, radix=P.UNDEF):
     z = t[:end]
     if not z:
         return ("exact", [math.nan])
-    n = int(z, r)
+    n = _big_int(z, r)
     exact = P.int_to_double(n)
     if n == 0:
         return ("exact", [-0.0 if sign < 0 else 0.0])
@@ -74,7 +86,7 @@ def parse_int(s, radix=P.UNDEF):
         sig = z.lstrip("0")
         vals = [sign * exact]
         if len(sig) > 20:
-            alt = sign * P.int_to_double(int(sig[:20] + "0" * (len(sig) - 20)))
+            alt = sign * P.int_to_double(int(sig[:20]) * 10 ** (len(sig) - 20))
             if alt != vals[0]:
                 vals.append(alt)
         return ("exact", vals)
